@@ -21,6 +21,7 @@ from harness.common import lean, pya
 
 PROP = "C17"
 LEAN_PROP = "PyaModel.Props.C17"
+NAMESPACE = "Pya.C17"
 LEAN_TARGETS = ["PyaModel.Spec.CpyFormat"]
 ANCHORS = [
     ("pyanalyze/format_strings.py", "ConversionSpecifier.from_match"),
@@ -69,9 +70,9 @@ TRUSTED = [
 
 LINT_PCT = {"noSpecs", "combine"}
 LINT_FMT = {"unusedIdx", "unusedKw"}
-MISS_CLASSES = ["hexFloat", "parenKey", "nonStrKey", "bytesMapping", "hugeWidthPrec", "fmtAutoManual", "fmtPath", "fmtSpec"]
-FP_CLASSES = ["cRangeStr", "dotNoDigits", "emptyKey", "parenKey", "mixedKeyCrash", "pctOnlyMapping", "bytesMapping"]
-TYPE_CLASSES = ["mixedKeyCrash"]
+MISS_CLASSES = ["parenKey", "nonStrKey", "bytesMapping", "hugeWidthPrec", "fmtAutoManual", "fmtPath", "fmtSpec"]
+FP_CLASSES = ["cRangeStr", "dotNoDigits", "emptyKey", "parenKey", "pctOnlyMapping", "bytesMapping"]
+TYPE_CLASSES = []  # the crash class (Any[error]) was repaired in /repo cf8a3b3; a wrong type is always new
 
 # ---------------------------------------------------------------- argument universe
 def elem_src(tok):
@@ -348,6 +349,7 @@ _PCT_KINDS = [
     (re.compile(r"use of % on string"), "noSpecs"), (re.compile(r"% string requires a mapping"), "needMapping"),
     (re.compile(r"No value specified for keys"), "missingKeys"), (re.compile(r"too few arguments"), "tooFew"),
     (re.compile(r"too many arguments"), "tooMany"), (re.compile(r"%. conversion specifier accepts numbers"), "numeric"),
+    (re.compile(r"%. conversion specifier accepts integers"), "intOnly"),
     (re.compile(r"%c requires an integer in range"), "cRange"), (re.compile(r"%c requires a single character"), "cLen"),
     (re.compile(r"%c requires an integer or character"), "cType"), (re.compile(r"%. accepts only bytes"), "bytesOnly"),
     (re.compile(r"'\*' special specifier"), "starInt"), (re.compile(r"%% does not accept"), "pctArg"),
@@ -559,7 +561,7 @@ def eval_pct(ctx, cases, e2e_idx, with_model=True):
                 ctx.disagree("unit", case, "driver: " + model[i], "bad-op")
                 continue
             merrs = [] if m["errs"] == "-" else m["errs"].split(",")
-            mcrash = m["crash"] == "1"
+            mcrash = False  # the model has no crashing path any more (cf8a3b3)
             dset = set() if m["D"] == "-" else set(m["D"].split(","))
             for d in dset:
                 ctx.tag("D_" + d)
@@ -587,7 +589,7 @@ def eval_pct(ctx, cases, e2e_idx, with_model=True):
                     ctx.extra["other_codes"][c] = ctx.extra["other_codes"].get(c, 0) + 1
             if m is not None:
                 ctx.corr("e2e")
-                exp = (merrs[:1], mcrash, {"str": "str", "bytes": "bytes", "any": "Any[error]"}[m["ty"]])
+                exp = (merrs[:1], mcrash, m["ty"])
                 if (ek, ecrash, ety) != exp:
                     conforms = False
                     ctx.disagree("e2e", case, {"first": ek, "crash": ecrash, "type": ety}, {"first": exp[0], "crash": exp[1], "type": exp[2]})
